@@ -389,6 +389,9 @@ func c20EndToEnd(c *Ctx, im *Impl) {
 		if i == 0 {
 			ids = []string{strings.Repeat("x", 113), "short"}
 		}
+		if i == 1 {
+			ids = []string{"Controller-01", "kiosk-7"}
+		}
 		for k := r.Intn(3); k > 0; k-- {
 			dns = append(dns, genDNS(r))
 		}
@@ -465,6 +468,13 @@ func c20EndToEnd(c *Ctx, im *Impl) {
 		inWindow := window <= 1
 		cands := append([]string{}, ids...)
 		cands = append(cands, "not-"+ids[0], ids[0]+"x", "", strings.ToUpper(ids[0])+"_")
+		// near misses that differ from a requested ID only by letter case / Unicode case folding
+		for _, id := range ids {
+			for _, v := range []string{strings.ToUpper(id), strings.ToLower(id), strings.Title(strings.ToLower(id)),
+				strings.Replace(id, "k", "\u212a", 1), strings.Replace(id, "s", "\u017f", 1)} {
+				cands = append(cands, v)
+			}
+		}
 		if len(ids[0]) > 1 {
 			cands = append(cands, ids[0][:len(ids[0])-1])
 		}
